@@ -116,6 +116,94 @@ impl fmt::Display for ProjectExec {
     }
 }
 
+/// Re-labels the columns of its input, positionally, without touching data.
+///
+/// `(SELECT ...) AS x` and `cte AS x` expose their input's columns under the
+/// qualifier `x`. Columns are resolved by NAME at execution time, so the
+/// qualifier has to be present in the physical field names: two references to
+/// the same derived table (`c AS x JOIN c AS y`) otherwise hand the join two
+/// identically named sets of columns and `y.v` resolves to `x`'s column.
+#[derive(Debug)]
+pub struct RelabelExec {
+    input: Arc<dyn PhysicalOperator>,
+    schema: SchemaRef,
+}
+
+impl RelabelExec {
+    /// `names` gives the output name of every input column, in order.
+    pub fn new(input: Arc<dyn PhysicalOperator>, names: Vec<String>) -> Self {
+        let schema = relabel_schema(&input.schema(), &names);
+        Self { input, schema }
+    }
+}
+
+fn relabel_schema(schema: &Schema, names: &[String]) -> SchemaRef {
+    debug_assert_eq!(schema.fields().len(), names.len());
+    Arc::new(Schema::new(
+        schema
+            .fields()
+            .iter()
+            .zip(names)
+            .map(|(f, name)| f.as_ref().clone().with_name(name.clone()))
+            .collect::<Vec<_>>(),
+    ))
+}
+
+#[async_trait]
+impl PhysicalOperator for RelabelExec {
+    fn schema(&self) -> SchemaRef {
+        self.schema.clone()
+    }
+
+    fn children(&self) -> Vec<Arc<dyn PhysicalOperator>> {
+        vec![self.input.clone()]
+    }
+
+    async fn execute(&self, partition: usize) -> Result<RecordBatchStream> {
+        crate::physical::check_partition(self, partition)?;
+
+        let input_stream = self.input.execute(partition).await?;
+        let schema = self.schema.clone();
+        let relabeled = input_stream.and_then(move |batch| {
+            let schema = schema.clone();
+            async move {
+                // Field types and nullability follow the batch itself (columns
+                // may arrive dictionary-encoded); only the names change.
+                let same_layout = batch.schema().fields().len() == schema.fields().len()
+                    && batch
+                        .schema()
+                        .fields()
+                        .iter()
+                        .zip(schema.fields())
+                        .all(|(b, s)| {
+                            b.data_type() == s.data_type() && b.is_nullable() == s.is_nullable()
+                        });
+                let schema = if same_layout {
+                    schema
+                } else {
+                    let names: Vec<String> =
+                        schema.fields().iter().map(|f| f.name().clone()).collect();
+                    relabel_schema(&batch.schema(), &names)
+                };
+                let options = arrow::record_batch::RecordBatchOptions::new()
+                    .with_row_count(Some(batch.num_rows()));
+                RecordBatch::try_new_with_options(schema, batch.columns().to_vec(), &options)
+                    .map_err(Into::into)
+            }
+        });
+
+        Ok(Box::pin(relabeled))
+    }
+
+    fn name(&self) -> &str {
+        "Relabel"
+    }
+
+    fn output_partitions(&self) -> usize {
+        self.input.output_partitions()
+    }
+}
+
 fn project_batch(
     batch: &RecordBatch,
     exprs: &[Expr],
